@@ -220,6 +220,32 @@ var c11Reads = []c11Read{
 		}
 		return fmt.Sprint(d.FlattenedKeys(o...))
 	}},
+	{"dst.Merge(struct{C *Config `k`; M map `k`}) without a separator", func(c *ucfg.Config, o []ucfg.Option) string {
+		type sameName struct {
+			C *ucfg.Config           `config:"k"`
+			M map[string]interface{} `config:"k"`
+		}
+		d := ucfg.New()
+		// (no PathSep here: the two fields collide by name only)
+		if err := d.Merge(sameName{c, M{"zz9": 1, "b": M{"zz9": 2}}}); err != nil {
+			return rs(nil, err)
+		}
+		k := d.FlattenedKeys()
+		sort.Strings(k)
+		return fmt.Sprint(len(k) > 0)
+	}},
+	{"dst.Merge(struct{C *Config `k`; X int `k.zz9`}) with PathSep", func(c *ucfg.Config, o []ucfg.Option) string {
+		type dotted struct {
+			C *ucfg.Config `config:"k"`
+			X int          `config:"k.zz9"`
+			Y int          `config:"k.b.zz9"`
+		}
+		d := ucfg.New()
+		if err := d.Merge(dotted{c, 1, 2}, ucfg.PathSep(".")); err != nil {
+			return rs(nil, err)
+		}
+		return fmt.Sprint(len(d.FlattenedKeys()) > 0)
+	}},
 	{"dst.Merge(struct{*Config})", func(c *ucfg.Config, o []ucfg.Option) string {
 		d := ucfg.New()
 		if err := d.Merge(struct{ K *ucfg.Config }{c}, append(o, ucfg.AppendValues)...); err != nil {
